@@ -54,6 +54,30 @@ def clamp01 (x : Rat) : Rat := if x ≤ 0 then 0 else if 1 ≤ x then 1 else x
 /-- `point_pointset(p, q)**2` -/
 def ptPtSq (p q : Vec) : Rat := nsq (vsub p q)
 
+def absR (x : Rat) : Rat := if x < 0 then -x else x
+
+/-- `point_pointset(p, q, exponent=1)`: the 1-norm of the difference (the only other exponent with rational values) -/
+def norm1 : Vec → Rat
+  | [] => 0
+  | x :: xs => absR x + norm1 xs
+
+def ptPt1 (p q : Vec) : Rat := norm1 (vsub p q)
+
+/-- maximum of a list of non-negative numbers (0 for the empty list) -/
+def maxList : List Rat → Rat
+  | [] => 0
+  | x :: xs => if maxList xs < x then x else maxList xs
+
+/-- one entry of `pointset(p, max_diag)`, squared: `|p_i - p_j|²` off the diagonal; on the diagonal 0, or with
+    `max_diag` twice the row maximum, i.e. `4·max_j |p_i - p_j|²` -/
+def pointSetEntry (maxDiag : Bool) (ps : List Vec) (pi pj : Vec × Nat) : Rat :=
+  if pi.2 = pj.2 then (if maxDiag then 4 * maxList (ps.map (ptPtSq pi.1)) else 0) else ptPtSq pi.1 pj.1
+
+/-- `pointset(p, max_diag)` squared (a single point gives the 1×1 zero matrix in the code as well: max = 0) -/
+def pointSet (maxDiag : Bool) (ps : List Vec) : List (List Rat) :=
+  let idx := ps.zip (List.range ps.length)
+  idx.map fun pi => idx.map fun pj => pointSetEntry maxDiag ps pi pj
+
 /-! ### point – segment (`points_segments`, one point and one segment) -/
 
 structure PtSegOut where
@@ -212,8 +236,6 @@ def projPlane (c n x : Vec) : Vec := vsub x (smul (dot (vsub x c) n / nsq n) n)
 def sgn (x : Rat) : Int := if x < 0 then -1 else if 0 < x then 1 else 0
 
 def vsign (x y : Rat) : Int := if sgn x = 0 then sgn y else sgn x
-
-def absR (x : Rat) : Rat := if x < 0 then -x else x
 
 /-- the two coordinates kept when the dominant axis of the normal is dropped
     (an affine bijection plane → ℚ²; the code rotates the plane onto z = 0 instead) -/
